@@ -103,6 +103,14 @@ CHECKS["C04"] = dict(
          "runtime predicate, not a theorem, outside fragment F.",
     design="4/C04", technique="Coq proof (length and completeness invariants of the main-pass loop) + property clauses evaluated on sanitizer-instrumented real calls")
 
+CHECKS["C11"] = dict(
+    text="Machine-checked proof (Coq): for every one-to-one table (single-cell definitions, no character or cell defined twice - a "
+         "computable predicate) forward translation of any string over its characters is one cell per character with identity map, "
+         "back-translating it returns the string, forward-translating the back-translation of any string of its cells returns the cells, "
+         "and the display maps invert each other. Tied to the code by generated definition tables (injective and deliberately "
+         "non-injective) run through lou_translate/lou_backTranslate/lou_charToDots/lou_dotsToChar against both extracted engines.",
+    design="4/C11", technique="Coq proof of round trips on the forward/backward engine models + differential correspondence on generated one-to-one tables")
+
 PENDING = {}
 
 
